@@ -216,6 +216,11 @@ def run_unit(tpl_path, rlimit=None, keep_dir=None, extra_args=(), timeout=900):
     # semantic diagnostics without a source location (e.g. the postcondition that a *SpecImpl trait attaches to a trait
     # method such as From::from) are attributed to the failing functions that have no located diagnostic
     unlocated = [f_ for f_ in res["failures"] if not f_["fn"]]
+    # a nested fn (e.g. pop_block inside ingest_stable_blocks_into_utxoset) fails under its own name, while its diagnostics
+    # are attributed to the extracted function that contains it
+    for iv in intervals:
+        if iv[2] in failed_fns and any(f_["line"] and iv[0] <= f_["line"] <= iv[1] for f_ in res["failures"]):
+            explained.add(iv[2])
     for fnm in sorted(failed_fns - explained):
         if unlocated:
             u = unlocated.pop(0) if len(unlocated) > 1 else unlocated[0]
